@@ -39,8 +39,10 @@ type Graph struct {
 	Sites []*Site
 	// call edges between declared repo functions
 	Edges map[*types.Func]map[*types.Func]bool
-	// functions referenced as values
-	byFn map[*types.Func][]*Site
+	// Direct: static calls, interface dispatch and references to named functions as values
+	// (without the by-signature edges of dynamic calls to enclosing functions of literals)
+	Direct map[*types.Func]map[*types.Func]bool
+	byFn   map[*types.Func][]*Site
 }
 
 func resourceOf(recv types.Type) (string, bool) {
@@ -144,7 +146,7 @@ func derefNamed(t types.Type) (string, bool) {
 }
 
 func Build(p *load.Prog, sum *gf.Summaries) *Graph {
-	g := &Graph{Prog: p, Sum: sum, Edges: map[*types.Func]map[*types.Func]bool{}, byFn: map[*types.Func][]*Site{}}
+	g := &Graph{Prog: p, Sum: sum, Edges: map[*types.Func]map[*types.Func]bool{}, Direct: map[*types.Func]map[*types.Func]bool{}, byFn: map[*types.Func][]*Site{}}
 	// value references by signature
 	type ref struct{ fn *types.Func }
 	bySig := map[string][]*types.Func{}
@@ -187,6 +189,8 @@ func Build(p *load.Prog, sum *gf.Summaries) *Graph {
 		info := fi.Pkg.TypesInfo
 		edges := map[*types.Func]bool{}
 		g.Edges[fi.Obj] = edges
+		direct := map[*types.Func]bool{}
+		g.Direct[fi.Obj] = direct
 		var litStack []*ast.FuncLit
 		var walk func(n ast.Node) bool
 		walk = func(n ast.Node) bool {
@@ -199,10 +203,12 @@ func Build(p *load.Prog, sum *gf.Summaries) *Graph {
 			case *ast.SelectorExpr:
 				if f, ok := info.Uses[x.Sel].(*types.Func); ok && load.IsRepo(pkgPath(f)) {
 					g.addTarget(edges, f.Origin())
+					g.addTarget(direct, f.Origin())
 				}
 			case *ast.Ident:
 				if f, ok := info.Uses[x].(*types.Func); ok && load.IsRepo(pkgPath(f)) {
 					g.addTarget(edges, f.Origin())
+					g.addTarget(direct, f.Origin())
 				}
 			case *ast.CallExpr:
 				class, res, verb := Classify(info, x)
@@ -286,6 +292,47 @@ func (g *Graph) Reach(roots ...*types.Func) map[*types.Func]bool {
 	return seen
 }
 
+// ReachDirect is Reach over the direct edges only (static calls, interface
+// dispatch, references to named functions); closures belong to their enclosing function.
+func (g *Graph) ReachDirect(roots ...*types.Func) map[*types.Func]bool {
+	seen := map[*types.Func]bool{}
+	var work []*types.Func
+	for _, r := range roots {
+		if r == nil {
+			continue
+		}
+		if impl, ok := g.Sum.Impls[r]; ok {
+			work = append(work, impl...)
+		} else {
+			work = append(work, r.Origin())
+		}
+	}
+	for len(work) > 0 {
+		f := work[len(work)-1]
+		work = work[:len(work)-1]
+		if seen[f] {
+			continue
+		}
+		seen[f] = true
+		for t := range g.Direct[f] {
+			if !seen[t] {
+				work = append(work, t)
+			}
+		}
+	}
+	return seen
+}
+
+// HasEffects reports whether f transitively (direct edges) contains any effect site.
+func (g *Graph) HasEffects(f *types.Func) bool {
+	for _, s := range g.SitesIn(g.ReachDirect(f)) {
+		if s.Class != "queue" {
+			return true
+		}
+	}
+	return false
+}
+
 // SitesIn lists the effect sites syntactically inside the given functions.
 func (g *Graph) SitesIn(fns map[*types.Func]bool) []*Site {
 	var out []*Site
@@ -319,7 +366,7 @@ func (g *Graph) Effects(f *types.Func, classes ...string) map[string]*Site {
 // Callers returns the declared functions with an edge to f.
 func (g *Graph) Callers(f *types.Func) []*types.Func {
 	var out []*types.Func
-	for c, es := range g.Edges {
+	for c, es := range g.Direct {
 		if es[f] {
 			out = append(out, c)
 		}
